@@ -96,7 +96,7 @@ def run_case(ctx, i):
     if not ctx.begin("inv:%d" % i):
         return
     case = gen_aa.imaging_case(aa, rng)
-    objs, desc = gen_aa.linear_objects(aa, rng, case)
+    objs, desc = gen_aa.linear_objects(aa, rng, case, overrides=True)
     diag = float(rng.choice([1e-8, 1e-3]))
     W = dict(mask=case["m"], kernel=case["k"], normalized_psf=case["normalized"], objects=desc, diag=diag, sub=case["sub"],
              noise_scale=case["noise_scale"])
